@@ -195,6 +195,8 @@ func (e *Engine) RunRoot(fn *ssa.Function) (err error) {
 		return fmt.Errorf("%s: no body", e.rootKey)
 	}
 	fr.block = fn.Blocks[0]
+	cutEntryAssumes = s.assumes // cut.go: the facts that hold at entry
+	cutSeen = map[ssa.Instruction]bool{}
 	return e.runStates([]*State{s})
 }
 
@@ -223,6 +225,12 @@ func (e *Engine) runStates(work []*State) error {
 			return fmt.Errorf("exploration budget (%s) exceeded in %s after %d states: split the function with contracts", budget, e.rootKey, e.statesRun)
 		}
 		succ := e.runUntilBranch(s)
+		if cutDropPending {
+			// "at <anchor> start" (cut.go): the paths still pending lead to the same anchor or leave the function
+			// before it; nothing that is claimed depends on them
+			work = work[:0]
+			cutDropPending = false
+		}
 		work = append(work, succ...)
 	}
 	return nil
@@ -1163,10 +1171,16 @@ func (e *Engine) bitOp(op string, a, b Term, rt *types.Basic) Term {
 		ax := fmt.Sprintf("(forall ((x Int) (y Int)) (! (and (<= %s %s) (<= %s %s)) :pattern (%s)))", BigLit(lo).S, app.S, app.S, BigLit(hi).S, app.S)
 		e.u.AddAxiom(name, Term{ax, SBool})
 		if op == "bor" && isUnsigned(rt) {
-			ax2 := fmt.Sprintf("(forall ((x Int) (y Int)) (! (=> (and (>= x 0) (>= y 0)) (and (>= %s x) (>= %s y) (<= %s (+ x y)))) :pattern (%s)))", app.S, app.S, app.S, app.S)
+			// operands within the type only: together with the range axiom above, "x | y >= x" for an x above the
+			// type's maximum is a contradiction (an inconsistent axiom set lets a solver's model-based
+			// instantiation prove anything; found by a C07 mutation that verified although it must not)
+			ax2 := fmt.Sprintf("(forall ((x Int) (y Int)) (! (=> (and (>= x 0) (>= y 0) (<= x %s) (<= y %s)) (and (>= %s x) (>= %s y) (<= %s (+ x y)))) :pattern (%s)))", BigLit(hi).S, BigLit(hi).S, app.S, app.S, app.S, app.S)
 			e.u.AddAxiom(name, Term{ax2, SBool})
 		}
 		e.abstract("bit operation " + name + " treated as an uninterpreted function with range axioms")
+		if e.rootContract != nil && e.rootContract.Flags["bitprecise"] != "" {
+			e.bitPreciseAxioms(op, name, rt)
+		}
 	}
 	return App(name, SInt, a, b)
 }
@@ -1724,6 +1738,7 @@ func (e *Engine) checkEnsures(s *State, fr *Frame, results []Value, ret *ssa.Ret
 		}
 		s.addObligation("ensures", name, cl.Tag, ret.Pos(), t, cl.Src)
 		e.obligations[len(e.obligations)-1].Clause = cl.Expr
+		e.ensuresCover(s, fr, cl, name, resMap, resTypes, ret)
 	}
 	// at return#* asserts
 	for _, at := range c.Ats {
